@@ -127,6 +127,23 @@ fn only_legal_ampersands(e: &str) -> bool {
 
 pub fn check(c: &Case) -> Verdict {
     match c {
+        Case::Str(s) if s.starts_with("\u{1}resolve:") => {
+            let name = &s["\u{1}resolve:".len()..];
+            let want = match name {
+                "lt" => Some("<"),
+                "gt" => Some(">"),
+                "amp" => Some("&"),
+                "apos" => Some("'"),
+                "quot" => Some("\""),
+                _ => None,
+            };
+            let a = quick_xml::escape::resolve_xml_entity(name);
+            let b = quick_xml::escape::resolve_predefined_entity(name);
+            if a != want || b != want {
+                return Verdict::fail(format!("resolve_xml_entity({:?}) = {:?}, resolve_predefined_entity = {:?}, expected {:?}", name, a, b, want));
+            }
+            Verdict::pass(true)
+        }
         Case::Str(s) => {
             let special = s.chars().any(|c| matches!(c, '<' | '>' | '&' | '\'' | '"'));
             let mut v = Verdict::pass(special);
@@ -305,6 +322,10 @@ fn run(ctx: &Ctx) {
         let spelled: String = name.chars().enumerate().map(|(j, c)| if k >> j & 1 == 1 { c.to_ascii_uppercase() } else { c }).collect();
         Some(Case::Str(format!("a&{};b", spelled)))
     }, check);
+    // the resolver functions themselves: exactly the five names, nothing else (case variants, prefixes,
+    // extensions, blanks, the empty name, numeric forms)
+    const PROBES: &[&str] = &["lt", "gt", "amp", "apos", "quot", "LT", "Lt", "GT", "AMP", "Amp", "APOS", "QUOT", "Quot", "l", "g", "a", "am", "ap", "apo", "quo", "q", "ltt", "lt;", "&lt;", "&lt", " lt", "lt ", "gtx", "ampp", "aposs", "quott", "", "#", "#60", "#x3c", "nbsp", "copy", "amp\u{0}", "\u{e9}"];
+    ctx.run_indexed("resolver-functions-on-a-table-of-names", PROBES.len() as u64, |i| Some(Case::Str(format!("\u{1}resolve:{}", PROBES[i as usize]))), check);
     // offset sweep: every special / reference form after a run of 0..=130 plain bytes and before a
     // run of 0..=40 (block-wise scanners, copy offsets), with two kinds of plain runs
     const SPECIALS: &[&str] = &["<", ">", "&", "'", "\"", "&amp;", "&lt;&gt;", "&#65;", "&#x10FFFF;", "&unknown;", "&#0;", "&", "&;", "\u{e9}<", "\r\n&", "]]>", "&apos;&quot;", "&e;", "&z;", "&long;&x;", "&a;&e"];
